@@ -114,8 +114,8 @@ def rand_inst(rng, cls, p_none=0.3):
 class Pool:
     """classes of one case, built bottom-up; the same class object is reused wherever it is a member"""
 
-    def __init__(self, rng, unique_names, merge_n=None):
-        self.rng, self.unique, self.merge_n = rng, unique_names, merge_n
+    def __init__(self, rng, unique_names, merge_n=None, allow_opt=True, reuse=0.55):
+        self.rng, self.unique, self.merge_n, self.allow_opt, self.reuse = rng, unique_names, merge_n, allow_opt, reuse
         self.by_level = {0: [], 1: [], 2: [], 3: []}
         self.count = 0
 
@@ -132,7 +132,7 @@ class Pool:
             nn = rng.choice([1, 1, 2]) if level > 0 else 0
             for mn in rng.sample(NEST_NAMES, nn):
                 sub = self.get_class(rng.randint(0, level - 1) if rng.random() < 0.4 else level - 1)
-                opt = rng.random() < 0.45
+                opt = self.allow_opt and rng.random() < 0.45
                 r = rng.random()
                 if opt and r < 0.4:
                     d = "none"
@@ -152,18 +152,20 @@ class Pool:
 
     def get_class(self, level):
         have = self.by_level[level]
-        if have and self.rng.random() < 0.55:
+        if have and self.rng.random() < self.reuse:
             return self.rng.choice(have)
         return self.new_class(level)
 
 
-def rand_forest(rng, depth, ndest, unique_names, merge_n=None, p_default=0.45):
-    pool = Pool(rng, unique_names, merge_n)
+def rand_forest(rng, depth, ndest, unique_names, merge_n=None, p_default=0.45, uniform=False):
+    """uniform: the same class at every destination, no class used twice inside it, no Optional member, default instances on
+    all destinations or on none (the shape ALWAYS_MERGE is meant for)"""
+    pool = Pool(rng, unique_names, merge_n, allow_opt=not uniform, reuse=0.0 if uniform else 0.55)
     dests = rng.sample(DESTS, ndest)
     forest = []
     first = None
     for d in dests:
-        if first is not None and rng.random() < 0.55:
+        if first is not None and (uniform or rng.random() < 0.55):
             cls = first
         else:
             cls = pool.get_class(rng.randint(0, depth))
@@ -173,7 +175,7 @@ def rand_forest(rng, depth, ndest, unique_names, merge_n=None, p_default=0.45):
     if r < p_default:
         for it in forest:
             it[2] = rand_inst(rng, it[1])
-    elif r < p_default + 0.2:
+    elif r < p_default + 0.2 and not uniform:
         it = rng.choice(forest)
         it[2] = rand_inst(rng, it[1])
     return forest
@@ -246,8 +248,11 @@ def gen(tier, seed):
         depth = rng.choice([0, 1, 1, 2, 2, 3])
         ndest = rng.choice([1, 1, 2, 2, 3])
         mergeable = rng.random() < 0.5       # class-unique leaf names: usable under ALWAYS_MERGE
-        forest = rand_forest(rng, depth, ndest, mergeable, merge_n=ndest if ndest > 1 else None)
+        uniform = mergeable and ndest > 1 and rng.random() < 0.5
+        forest = rand_forest(rng, depth, ndest, mergeable, merge_n=ndest if ndest > 1 else None, uniform=uniform)
         pick = cfgs if per >= len(cfgs) else rng.sample(cfgs, per)
+        if uniform and per < len(cfgs):          # make sure the merging mode is among the sampled configurations
+            pick = pick[:-2] + rng.sample([c for c in cfgs if c["cr"] == "ALWAYS_MERGE" and c["api"] == "parser"], 2)
         for cfg in pick:
             if cfg["api"] == "parse" and len(forest) != 1:
                 cfg = dict(cfg, api="parser")
@@ -399,10 +404,13 @@ def first_diff(a, b, path=""):
 
 
 def py_spec(case, obs):
-    if obs["outcome"][0] != "ok":
-        if len(obs["outcome"]) > 1 and str(obs["outcome"][1]).startswith("HARNESS:"):
-            return f"harness could not build the classes: {obs['outcome'][1]}"
-        return None        # the parser could not be set up: the statement is vacuous (model and code must agree on it)
+    o = obs["outcome"]
+    if o[0] != "ok":
+        if len(o) > 1 and str(o[1]).startswith("HARNESS:"):
+            return f"harness could not build the classes: {o[1]}"
+        if o[0] == "cre":
+            return None    # ConflictResolutionError: the configuration is refused, the statement is vacuous (model and code must agree)
+        return f"parsing [] crashed instead of delivering the defaults (or refusing with ConflictResolutionError): {o} under {case['cfg']}"
     want = spec_want(case)
     if obs["want"] != want:
         return f"harness: cls()/default instance {obs['want']} differs from the model's construct {want}"
@@ -415,29 +423,61 @@ def py_spec(case, obs):
 
 
 def _kind(v):
-    if v.get("t") == "dc":
-        return "inst"
-    return v.get("t")
+    return "inst" if v.get("t") == "dc" else v.get("t")
+
+
+def class_levels(forest):
+    """class name -> set of nesting levels at which a wrapper of that class is created"""
+    out = {}
+
+    def walk(cls, lvl):
+        out.setdefault(cls["c"], set()).add(lvl)
+        for f in cls["fields"]:
+            if f["k"] == "nest":
+                walk(f["cls"], lvl + 1)
+
+    for _, c, _ in forest:
+        walk(c, 0)
+    return out
+
+
+def merge_cause(case):
+    """why ALWAYS_MERGE is outside the shapes it handles, in order of priority"""
+    f = case["forest"]
+    if any(len(lv) > 1 for lv in class_levels(f).values()):
+        return "different-depths"                       # DESIGN 5 #20
+    if len({i is None for _, _, i in f}) > 1:
+        return "partial-default-instances"              # DESIGN 5 #19
+    if any(_has(c, lambda x: x["k"] == "nest" and x["opt"]) for _, c, _ in f):
+        return "optional-member"
+    return "other"
 
 
 def signature(case, obs, reason):
-    if obs["outcome"][0] != "ok":
-        return "harness"
-    want = spec_want(case)
+    o = obs["outcome"]
     merge = case["cfg"]["cr"] == "ALWAYS_MERGE"
-    for (d, c, i), w, o in zip(case["forest"], want, obs["values"]):
-        df = first_diff(w, o)
+    if o[0] != "ok":
+        if len(o) > 1 and str(o[1]).startswith("HARNESS:"):
+            return "harness"
+        kind = ":".join(str(x) for x in o[:2])
+        return (f"merge:{merge_cause(case)}:crash:{kind}" if merge else f"crash:{kind}")
+    want = spec_want(case)
+    if obs["want"] != want:
+        return "harness"
+    for (d, c, i), w, ov in zip(case["forest"], want, obs["values"]):
+        df = first_diff(w, ov)
         if df:
             path, a, b = df
-            pre = "merge:" if merge and len(case["forest"]) > 1 else ""
             if a.get("t") == "dc" and b.get("t") == "none":
-                return pre + "optional-member-with-default:None"
-            uniform = len({i2 is None for _, _, i2 in case["forest"]}) == 1
-            if pre and not uniform:
-                return pre + "nonuniform-default-instances:" + _kind(a) + "->" + _kind(b)
-            if pre and a.get("t") == "list" and len(a["v"]) >= 2:
-                return pre + "list-default-dealt:" + _kind(b)
-            return pre + "value:" + _kind(a) + "->" + _kind(b)
+                return "optional-member-with-default:None"                                    # DESIGN 5 #3
+            if not merge:
+                return "value:" + _kind(a) + "->" + _kind(b)
+            cause = merge_cause(case)
+            if cause == "other" and a.get("t") == "list" and b in a["v"]:
+                return "merge:list-default-dealt"                                             # DESIGN 5 #4
+            if cause == "optional-member" and a.get("t") == "none" and b.get("t") == "dc":
+                return "merge:optional-member:None-comes-back-as-instance"
+            return f"merge:{cause}:wrong-value"
     return "other"
 
 
@@ -465,6 +505,7 @@ def features(case, obs):
             "optional_member": any(_has(c, lambda x: x["k"] == "nest" and x["opt"]) for _, c, _ in f),
             "reuse": len({c["c"] for _, c, _ in f}) < len(f),
             "inherit": any(c.get("cuts") for _, c, _ in f),
+            "merge_shape": (merge_cause(case) if cfg["cr"] == "ALWAYS_MERGE" else "-"),
             "outcome": obs["outcome"][0] + (":" + str(obs["outcome"][1]) if len(obs["outcome"]) > 1 else "")}
 
 
